@@ -42,6 +42,9 @@ def cases(tier, seed):
     out = []
     for res, rot, size in itertools.product(RES, ROT, b["sizes"]):
         out.append(dict(mode="grid", res=res, rot=rot, size=list(size)))
+    # a grid more than a thousand cells wide: the inverse mapping has to travel hundreds of cells from its first guess
+    out.append(dict(mode="grid", res=800.0, rot=30.0, size=[1600, 12]))
+    out.append(dict(mode="grid", res=800.0, rot=0.0, size=[14, 1500]))
     for res, rot in itertools.product(RES, ROT[:2]):
         # a grid across the date line, stored in the 0..360 convention (all longitudes between 180 and 200)
         out.append(dict(mode="grid", res=res, rot=rot, size=[12, 10], lon0=190.0))
@@ -109,7 +112,8 @@ def run_grid(case):
         if sum(1 for v in viols if v["sig"] == sig) < 2:
             viols.append(util.viol(sig, f"res={case['res']} rot={case['rot']} size={case['size']} subgrid={sg}: {msg}", case))
 
-    for sg in subgrid_family(imax, jmax):
+    wide = max(imax, jmax) > 100
+    for sg in (subgrid_family(imax, jmax) if not wide else [None, [imax // 8, imax - 3, 2, jmax - 2] if imax > jmax else [2, imax - 2, jmax // 8, jmax - 3]]):
         lim = sg or [1, imax - 1, 1, jmax - 1]
         try:
             g = Grid(f, subgrid=sg)
@@ -117,6 +121,8 @@ def run_grid(case):
             bad("grid:refused", repr(e), sg)
             continue
         P = lattice(lim)
+        if wide:  # a coarse lattice along the long side, both edges of the short side
+            P = [(float(x), float(y)) for x in np.linspace(lim[0] + 0.63, lim[1] - 1.63, 47 if imax > jmax else 3) for y in np.linspace(lim[2] + 0.71, lim[3] - 1.71, 3 if imax > jmax else 47)]
         if not P:
             continue
         X, Y = np.array([p[0] for p in P]), np.array([p[1] for p in P])
